@@ -416,6 +416,12 @@ def check_population(m, before_ids, text, name):
                 return ('member read not typed as the member', getattr(s_mbr, 'Name', None), dt.Name)
         if kind == 'V_ALV' and dt.Name != 'integer':
             return ('array length not typed integer', dt.Name)
+        if kind == 'V_ALV':
+            bdt = one(one(sub).V_VAL[840]()).S_DT[820]()
+            while bdt is not None and one(bdt).S_UDT[17]():
+                bdt = one(bdt).S_UDT[17].S_DT[18]()
+            if bdt is not None and one(bdt).S_SDT[17].S_MBR[44](lambda x: x.Name == 'length'):
+                return ('a structure member named length is read as an array length (typed integer, not as the member)', bdt.Name)
         if kind == 'V_IRF' and not dt.Name.startswith('inst_ref<'):
             return ('instance reference type', dt.Name)
         if kind == 'V_ISR' and not dt.Name.startswith('inst_ref_set<'):
